@@ -272,6 +272,10 @@ class _StmtCanon(ast.NodeTransformer):
             chain = _match_to_if(st)
             if chain is not None:
                 return self._stmts([ast.fix_missing_locations(x) for x in chain])
+        # `try: S except C as e: ... raise [C(..) from e]`: every handler ends by raising the class it caught (a clearer message for an
+        # input that fails anyway), nothing is swallowed or converted: for every run that does not raise, the statement is S
+        if isinstance(st, ast.Try) and self.depth and not st.orelse and not st.finalbody and st.handlers and all(_reraises_same(h) for h in st.handlers):
+            return self._stmts(st.body)
         # table-driven loop over a literal
         if isinstance(st, ast.For) and not st.orelse and self.depth:
             un = self._unroll(st, before)
@@ -340,6 +344,60 @@ class _StmtCanon(ast.NodeTransformer):
         return out
 
 
+def _strip_docstring(body):
+    if body and isinstance(body[0], ast.Expr) and isinstance(body[0].value, ast.Constant) and isinstance(body[0].value.value, str):
+        return body[1:]
+    return body
+
+
+def _reraises_same(h: ast.ExceptHandler) -> bool:
+    """the handler catches one named class and every path through it ends in a bare `raise` or `raise <that class>(..)`; it has no
+    other effect than building the message (assignments to locals, no calls in statement position, no attribute / subscript stores)"""
+    if h.type is None or not isinstance(h.type, (ast.Name, ast.Attribute)):
+        return False
+    cls = ast.unparse(h.type)
+
+    def ends_raising(body) -> bool:
+        if not body:
+            return False
+        last = body[-1]
+        if isinstance(last, ast.Raise):
+            if last.exc is None:
+                return True
+            e = last.exc.func if isinstance(last.exc, ast.Call) else last.exc
+            return ast.unparse(e) == cls or (h.name is not None and isinstance(last.exc, ast.Name) and last.exc.id == h.name)
+        if isinstance(last, ast.If):
+            return bool(last.orelse) and ends_raising(last.body) and ends_raising(last.orelse)
+        return False
+
+    def guard_raises_ok(body) -> bool:
+        for st in body:
+            if isinstance(st, ast.Raise):
+                if st.exc is not None:
+                    e = st.exc.func if isinstance(st.exc, ast.Call) else st.exc
+                    if ast.unparse(e) != cls and not (h.name is not None and isinstance(st.exc, ast.Name) and st.exc.id == h.name):
+                        return False
+            elif isinstance(st, ast.If):
+                if not guard_raises_ok(st.body) or not guard_raises_ok(st.orelse):
+                    return False
+            elif isinstance(st, ast.Assign):
+                if not all(isinstance(t, ast.Name) for t in st.targets):
+                    return False
+            elif isinstance(st, (ast.Pass,)):
+                continue
+            else:
+                return False
+        return True
+
+    return guard_raises_ok(h.body) and ends_raising(h.body)
+
+
+def _dotted_name(e) -> bool:
+    while isinstance(e, ast.Attribute):
+        e = e.value
+    return isinstance(e, ast.Name)
+
+
 def _match_to_if(m: ast.Match):
     """[statements] equivalent to a `match` whose patterns are literals, or-patterns of literals, `cls()` class patterns of a
     builtin type, a bare capture name or the wildcard; None for anything else (sequence / mapping / nested patterns, guards)."""
@@ -354,6 +412,10 @@ def _match_to_if(m: ast.Match):
     def test_of(pat):
         if isinstance(pat, ast.MatchValue) and isinstance(pat.value, ast.Constant):
             return ast.Compare(left=copy.deepcopy(subj), ops=[ast.Eq()], comparators=[pat.value])
+        if isinstance(pat, ast.MatchValue) and isinstance(pat.value, ast.Attribute) and _dotted_name(pat.value):
+            return ast.Compare(left=copy.deepcopy(subj), ops=[ast.Eq()], comparators=[pat.value])  # `case Mode.FULL:` compares with ==
+        if isinstance(pat, ast.MatchOr) and all(isinstance(p, ast.MatchValue) and isinstance(p.value, ast.Attribute) and _dotted_name(p.value) for p in pat.patterns):
+            return ast.BoolOp(op=ast.Or(), values=[ast.Compare(left=copy.deepcopy(subj), ops=[ast.Eq()], comparators=[p.value]) for p in pat.patterns])
         if isinstance(pat, ast.MatchSingleton):
             return ast.Compare(left=copy.deepcopy(subj), ops=[ast.Is()], comparators=[ast.Constant(value=pat.value)])
         if isinstance(pat, ast.MatchOr) and all(isinstance(p, ast.MatchValue) and isinstance(p.value, ast.Constant) for p in pat.patterns):
@@ -646,6 +708,8 @@ class Inliner:
                 and not f.value.args and owner is not None and getattr(self, "_current", None) is not None and self._current.name == f.attr:
             r = self.ct.lookup(owner, f.attr, after=owner)
             if r is not None and not any(isinstance(n, ast.Call) and isinstance(n.func, ast.Name) and n.func.id == "super" for n in ast.walk(r[1])):
+                if r[0].module is not module and not self._free_names_agree(r[1], r[0].module, module):
+                    return None
                 return r[0], r[1], "super"
             return None
         if isinstance(f, ast.Attribute) and isinstance(f.value, ast.Name) and owner is not None:
@@ -659,6 +723,8 @@ class Inliner:
                 for sub in self.ct.subclasses(k) + self.ct.subclasses(owner):
                     if sub != k and f.attr in sub.methods and sub.methods[f.attr] is not fn:
                         return None
+                if k.module is not module and not self._free_names_agree(fn, k.module, module):
+                    return None
                 return k, fn, recv
             ci = None
             if recv in module.classes:
@@ -678,36 +744,65 @@ class Inliner:
                 if r is not None and isinstance(r[1], ast.FunctionDef) and not isinstance(r[1], ast.AsyncFunctionDef):
                     # a helper imported from another module of the package: its free names must mean the same thing here
                     rm, fn = r
-                    bound = {a.arg for a in fn.args.args + fn.args.kwonlyargs} | _assigned_names(fn.body)
-                    import builtins as _b
-                    adopt: dict[str, str] = {}
-                    top = getattr(module, "_toplevel_names", None)
-                    if top is None:
-                        top = set(module.classes) | set(module.functions) | _assigned_names([st_ for st_ in module.tree.body
-                                                                                               if not isinstance(st_, (ast.FunctionDef, ast.ClassDef))])
-                        module._toplevel_names = top
-                    for n in ast.walk(fn):
-                        if isinstance(n, ast.Name) and isinstance(n.ctx, ast.Load) and n.id not in bound and not hasattr(_b, n.id):
-                            here = module.imports.get(n.id)
-                            there = rm.imports.get(n.id)
-                            if there is None and (n.id in rm.functions or n.id in rm.classes):
-                                there = f"{rm.name}.{n.id}"  # a sibling definition of the helper's module
-                            if there is None:
-                                return None
-                            if here is None and n.id not in top and adopt.get(n.id, there) == there:
-                                # the caller's module does not bind the name at all: inlining the helper there amounts to adding the
-                                # helper module's import, which changes nothing else
-                                adopt[n.id] = there
-                                continue
-                            if here != there:
-                                return None
-                    module.imports.update(adopt)
+                    if not self._free_names_agree(fn, rm, module):
+                        return None
                     return None, fn, None
         return None
 
-    def _inlinable(self, fn: ast.FunctionDef, via_super: bool = False) -> bool:
+    def _free_names_agree(self, fn, rm, module) -> bool:
+        """Code of `fn` (defined in module rm) is about to be placed in `module`: its free names must mean the same thing there.  A name
+        the target module does not bind at all is adopted (inlining then amounts to adding rm's import, which changes nothing else)."""
+        if rm is module:
+            return True
+        import builtins as _b
+
+        bound = {a.arg for a in fn.args.args + fn.args.kwonlyargs} | _assigned_names(fn.body)
+        if fn.args.vararg:
+            bound.add(fn.args.vararg.arg)
+        if fn.args.kwarg:
+            bound.add(fn.args.kwarg.arg)
+        adopt: dict[str, str] = {}
+        top = getattr(module, "_toplevel_names", None)
+        if top is None:
+            top = set(module.classes) | set(module.functions) | _assigned_names([st_ for st_ in module.tree.body
+                                                                                   if not isinstance(st_, (ast.FunctionDef, ast.ClassDef))])
+            module._toplevel_names = top
+        for n in ast.walk(fn):
+            if isinstance(n, ast.Name) and isinstance(n.ctx, ast.Load) and n.id not in bound and not hasattr(_b, n.id):
+                here = module.imports.get(n.id)
+                there = rm.imports.get(n.id)
+                if there is None and (n.id in rm.functions or n.id in rm.classes):
+                    there = f"{rm.name}.{n.id}"  # a sibling definition of the helper's module
+                if there is None:
+                    return False
+                if here is None and n.id not in top and adopt.get(n.id, there) == there:
+                    adopt[n.id] = there
+                    continue
+                if here != there:
+                    return False
+        module.imports.update(adopt)
+        return True
+
+    def _inlinable(self, fn: ast.FunctionDef, via_super: bool = False, passthrough: bool = False) -> bool:
         if (fn.name in self.anchors and not via_super) or fn.name.startswith("__"):
             return False
+        if fn.args.kwarg is not None and passthrough and not fn.args.vararg and not fn.args.posonlyargs:
+            # `def h(self, **kwargs)` called as `h(**kw)`: the same mapping under another name, unless h changes it
+            kn = fn.args.kwarg.arg
+            for n in ast.walk(fn):
+                if isinstance(n, ast.Name) and n.id == kn and not isinstance(n.ctx, ast.Load):
+                    return False
+                if isinstance(n, ast.Subscript) and isinstance(n.ctx, (ast.Store, ast.Del)) and isinstance(n.value, ast.Name) and n.value.id == kn:
+                    return False
+                if isinstance(n, ast.Call) and isinstance(n.func, ast.Attribute) and isinstance(n.func.value, ast.Name) and n.func.value.id == kn \
+                        and n.func.attr in ("pop", "popitem", "update", "setdefault", "clear", "__setitem__", "__delitem__"):
+                    return False
+            saved = fn.args.kwarg
+            fn.args.kwarg = None
+            try:
+                return self._inlinable(fn, via_super)
+            finally:
+                fn.args.kwarg = saved
         decos = [ast.unparse(d) for d in fn.decorator_list if not _transparent_decorator(d)]
         if any(d not in ("staticmethod", "classmethod") for d in decos):
             return False
@@ -846,7 +941,9 @@ class Inliner:
         if r is None:
             return None
         k, fn, recv = r
-        if not self._inlinable(fn):
+        star = [kw for kw in call.keywords if kw.arg is None]
+        passthrough = fn.args.kwarg is not None and len(star) == 1 and isinstance(star[0].value, ast.Name)
+        if not self._inlinable(fn, passthrough=passthrough):
             return None
         body = fn.body
         if body and isinstance(body[0], ast.Expr) and isinstance(body[0].value, ast.Constant) and isinstance(body[0].value.value, str):
@@ -871,13 +968,18 @@ class Inliner:
                 if recv != "self":
                     return None
                 mapping[first] = ast.Name(id="self", ctx=ast.Load())
-        if any(isinstance(a, ast.Starred) for a in call.args) or any(kw.arg is None for kw in call.keywords) or len(call.args) > len(params):
+        if any(isinstance(a, ast.Starred) for a in call.args) or (any(kw.arg is None for kw in call.keywords) and not passthrough) \
+                or len(call.args) > len(params):
             return None
         actual = dict(zip(params, call.args))
         for kw in call.keywords:
+            if kw.arg is None:
+                continue
             if kw.arg in actual or kw.arg not in params:
                 return None
             actual[kw.arg] = kw.value
+        if passthrough:
+            mapping[fn.args.kwarg.arg] = star[0].value
         for p_ in params:
             if p_ not in actual:
                 if p_ not in defaults:
@@ -967,6 +1069,31 @@ class Inliner:
             hoisted = self._hoist_nested(st, owner, module)
             if hoisted is not None:
                 return self._stmts(hoisted, owner, module, names, depth)
+        # `x = self.p` where p is a property with a multi-statement getter that no rule names: the getter is a helper called without
+        # arguments
+        if isinstance(st, (ast.Assign, ast.Return)) and isinstance(st.value, ast.Attribute) and isinstance(st.value.value, ast.Name) \
+                and st.value.value.id == "self" and owner is not None:
+            r_ = self.ct.lookup(owner, st.value.attr)
+            if r_ is not None and [ast.unparse(d) for d in r_[1].decorator_list] == ["property"] and len(_strip_docstring(r_[1].body)) > 1 \
+                    and not any(isinstance(it, ast.FunctionDef) and it is not r_[1] and it.name == r_[1].name for it in r_[0].node.body):
+                getter = r_[1]
+                saved = getter.decorator_list
+                getter.decorator_list = []
+                try:
+                    fake = ast.copy_location(ast.Call(func=st.value, args=[], keywords=[]), st.value)
+                    exp0 = self._expand(fake, owner, module, True, st, names)
+                finally:
+                    getter.decorator_list = saved
+                if exp0 is not None:
+                    new0, res0 = exp0
+                    val0 = ast.Name(id=res0, ctx=ast.Load())
+                    if not any(isinstance(n, ast.Name) and n.id == res0 and isinstance(n.ctx, ast.Store) for s0 in new0 for n in ast.walk(s0)):
+                        val0 = ast.Constant(value=None)
+                    tail0 = copy.copy(st)
+                    tail0.value = ast.copy_location(val0, st)
+                    out0 = [ast.fix_missing_locations(ast.copy_location(s0, st) if not hasattr(s0, "lineno") else s0) for s0 in new0 + [tail0]]
+                    self.log.append(f"{module.relpath}:{st.lineno} {getter.name} (property)")
+                    return self._stmts(out0, owner, module, names, depth + 1)
         call = None
         if isinstance(st, ast.Expr) and isinstance(st.value, ast.Call):
             call, want = st.value, False
